@@ -23,6 +23,8 @@ FromsThorough == {-1} \cup 0..6
 \* without anchorUntil: the default end from + delta lies before every anchoring time as well (abstractly -1), unless the
 \* delta is the largest configurable one (the default end saturates: never expires)
 InfDelta == 1000000
+\* the anchoring time 2000000 stands for a transaction time beyond the signed 64-bit range (concretised as 2^63): later than
+\* every declared or default window end, even the saturated one - and still inside the window of an operation that declares none
 EffUntil(from, until, delta) == IF from < 0 /\ until = 0 THEN (IF delta = InfDelta THEN from + delta ELSE -1)
                                 ELSE IF from # 0 /\ until = 0 THEN from + delta ELSE until
 
